@@ -457,14 +457,17 @@ func SetTagsByJSON(d dvid.Data, uuid dvid.UUID, replace bool, in io.ReadCloser) 
 		d.SetTags(setTags)
 		return d.PersistMetadata()
 	}
+	// The current map is read by the tags and info endpoints with no lock, so it is never changed
+	// in place: the merged tags are built aside and swapped in.
 	curTags := d.Tags()
-	if curTags == nil {
-		curTags = make(map[string]string)
+	newTags := make(map[string]string, len(curTags)+len(setTags))
+	for k, v := range curTags {
+		newTags[k] = v
 	}
 	for k, v := range setTags {
-		curTags[k] = v
+		newTags[k] = v
 	}
-	d.SetTags(curTags)
+	d.SetTags(newTags)
 	return d.PersistMetadata()
 }
 
